@@ -91,7 +91,7 @@ class Run:
 
     # ------------------------------------------------------------------ TLC
     def tlc(self, module, cfg, env=None, workers="auto", timeout=900, simulate=None, depth=None,
-            cont=False, extra=None, deadlock=False, dfs=False, heap=None, coverage=False, cdot=False):
+            cont=False, extra=None, deadlock=False, dfs=False, heap=None, coverage=False, cdot=False, soft_timeout=False):
         """Run TLC on spec/<module>.tla with config text cfg. Returns TLCResult."""
         self.nmeta += 1
         cfgname = "%s_%d.cfg" % (module, self.nmeta)
@@ -137,6 +137,9 @@ class Run:
         self.tlc_cmds.append(" ".join(cmd) + "  # %.1fs, %d generated / %d distinct" % (dt, res.generated, res.distinct))
         log("[tlc %s] rc=%d %.1fs gen=%d distinct=%d viol=%d" % (module, p.returncode, dt, res.generated, res.distinct, len(res.violations)))
         if p.returncode == 124 or p.returncode == 137:
+            if soft_timeout:
+                res.timed_out = True
+                return res
             raise Infra("tlc %s timed out after %ds" % (module, timeout))
         if res.fatal:
             sys.stderr.write(p.stdout[-6000:])
@@ -147,6 +150,7 @@ class Run:
 class TLCResult:
     def __init__(self, module, cfg, rc, out, dt):
         self.module, self.cfg, self.rc, self.out, self.dt = module, cfg, rc, out, dt
+        self.timed_out = False
         self.generated = self.distinct = 0
         m = re.findall(r"(\d+) states generated, (\d+) distinct states found", out)
         if m:
